@@ -62,16 +62,16 @@ Qed.
 
 (* a power loss never leaves a half-written file that parses: what the loader gets is nothing or a
    complete saved version *)
-Lemma powerloss_parse_complete f n m :
-  pf_parse (mkpf (pf_ver f) (Nat.min n (pf_len f)) (pf_full f)) = Some m -> m = pf_ver f /\ pf_full f <= n /\ pf_len f = pf_full f \/ pf_full f = Nat.min n (pf_len f).
+Lemma powerloss_parse_complete (f : pfile) (n : nat) (m : cmap) :
+  pf_parse (mkpf (pf_ver f) (Nat.min n (pf_len f)) (pf_full f)) = Some m -> m = pf_ver f /\ Nat.min n (pf_len f) = pf_full f.
 Proof.
   unfold pf_parse. cbn. destruct (Nat.eqb (Nat.min n (pf_len f)) (pf_full f)) eqn:E; [|discriminate].
-  intro H. right. apply Nat.eqb_eq in E. auto.
+  intro H. inversion H. apply Nat.eqb_eq in E. auto.
 Qed.
 
 (* ------------------------------------------------------------------ .del protocol under power loss *)
 
-Lemma del_powerloss_ordered sorted i :
+Lemma del_powerloss_ordered (sorted : bool) (i : nat) :
   let s0 := if sorted then fs_of [KSdocs; KIndex] else fs_of [KDocs; KIndex] in
   let s := persist_ordered (sealed_suicide_xops sorted) i s0 in
   safe true sorted true (any_del s || negb (fs_eqb s s0)) s = true.
@@ -104,24 +104,13 @@ Lemma ustep_inv prog f0 s e : u_inv f0 s -> u_inv f0 (ustep prog f0 s e).
 Proof.
   destruct s as [pre use flag called ph files bo bp]. unfold u_inv. cbn [u_bad_open u_bad_op u_ph u_files u_flag u_pre u_use].
   intros [H1 [H2 H3]]. subst bo bp.
-  destruct e; cbn [ustep].
-  - destruct ph; cbn; auto.
-  - destruct pre; cbn; auto. destruct flag; cbn; auto.
-    destruct ph; cbn in *.
-    + destruct H3 as [E _]. subst files. rewrite fs_eqb_refl. auto.
-    + destruct H3 as [_ [_ [E _]]]. discriminate.
-    + destruct H3 as [_ [E _]]. discriminate.
-    + destruct H3 as [E _]. discriminate.
-  - destruct use; cbn; auto. destruct ph; cbn in *; auto.
-    + destruct H3 as [_ [_ [_ E]]]. discriminate.
-    + destruct H3 as [_ [_ [_ E]]]. discriminate.
-    + destruct H3 as [_ E]. discriminate.
-  - destruct ph; cbn; auto.
-  - destruct ph, called, pre, use; cbn in *; auto. destruct H3. auto.
-  - destruct ph; cbn in *; auto. destruct H3 as [A [B [C D]]]. auto.
-  - destruct ph; cbn in *; auto. destruct H3 as [A [B [C D]]]. auto.
-  - destruct ph as [| | |p]; cbn in *; auto. destruct p as [|o r]; cbn; auto.
-    destruct H3 as [A B]. subst use. cbn. auto.
+  destruct ph as [| | |p]; cbn in H3.
+  all: repeat match goal with H : _ /\ _ |- _ => destruct H end; subst.
+  all: destruct e; cbn [ustep]; rewrite ?fs_eqb_refl; cbn;
+    repeat (match goal with
+            | |- context [match ?x with _ => _ end] => destruct x
+            | |- context [if ?x then _ else _] => destruct x
+            end; cbn); intuition congruence.
 Qed.
 
 Lemma urun_inv prog f0 evs : u_inv f0 (urun prog f0 evs).
@@ -145,5 +134,5 @@ Proof.
 Qed.
 
 Lemma use_nolock_refuted :
-  exists evs, u_bad_op (fold_left (ustep_nolock sealed_suicide_prog (fs_of [KSdocs; KIndex]) (fs_of [KSdocs; KIndex])) evs (u_init (fs_of [KSdocs; KIndex]))) = true.
+  exists evs, u_bad_op (fold_left (ustep_nolock sealed_suicide_prog (fs_of [KSdocs; KIndex])) evs (u_init (fs_of [KSdocs; KIndex]))) = true.
 Proof. exists [UAcq; UCheck; UCall; ULock; USet; UUnlock; UOp; UOp]. vm_compute. reflexivity. Qed.
